@@ -64,11 +64,11 @@ def run(ctx):
     cov = {"evaluations": n, "distinct_nontrivial": res["distinct_nontrivial"], "rule": res["rule"], "samples": samples,
            "scripts_enumerated_by_tlc": nscripts, "records_checked_by_tlc": n, "records_rejected": len(bad),
            "counters": cnt, "exhaustive": False,
-           "selection": "quick: per (item kind, fault class) of the alphabet one single-fault script with the fault below the target directory and one with the fault on a second command-line target (seeded choice of shape/position, one of the two with a 1.3 MB file), 3 clean and 20 pair scripts; a quarter of the scripts additionally on top of a parent snapshot, a quarter additionally with --skip-if-unchanged on top of a parent taken under the same faults; thorough: all clean scripts, seeded 1/3 of the single-fault and 1/10 of the pair scripts (different seeds cover different parts)"}
+           "selection": "quick: per (item kind, fault class) of the alphabet one single-fault script with the fault below the target directory and one with the fault on a second command-line target (seeded choice of shape/position, one of the two with a 3.1 MB file; runs with a read fault in the large file are repeated 4 times because chunks are still being saved asynchronously when the error arrives), 3 clean and 20 pair scripts; a quarter of the scripts additionally on top of a parent snapshot, a quarter additionally with --skip-if-unchanged on top of a parent taken under the same faults; thorough: all clean scripts, seeded 1/3 of the single-fault and 1/10 of the pair scripts (different seeds cover different parts)"}
     return verif.finish(ctx, "fault_enumeration", cov, [
         "faults are injected by a wrapping fs.FS behind the existing backupFSTestHook (in-process) and by permission bits / missing targets for an unprivileged run of the binary built from the tree",
         "a fault counts only when the file system really returned it to restic (delivered); items below a faulted directory are never reached",
-        "read faults by call number: the k-th Read call (k = 1..3) on the open file answers EIO once or persistently while the wrapper serves the file whole or in short pieces (64 bytes per Read for small files, 64 KiB for the 1.3 MB file); every Read call that answered EIO is a delivered fault",
+        "read faults by call number: the k-th Read call (k = 1..3) on the open file answers EIO once or persistently while the wrapper serves the file whole or in short pieces (64 bytes per Read for small files, 64 KiB for the 3.1 MB file); every Read call that answered EIO is a delivered fault",
         "type changes on the real file system: the wrapper exchanges the item (symlink to a readable item of the old kind outside the source tree, dangling symlink, file<->directory) inside MakeReadable, i.e. after restic listed and lstat()ed it and before it reopens it for reading; such an item was not read as listed and must be reported",
         "--skip-if-unchanged runs that create no snapshot are judged by status and by the contents of the parent snapshot (which the run declared identical)",
         "ENOENT when opening a file for reading after a successful lstat (vanish_late) is accepted with status 0 or 3: the statement does not classify it",
